@@ -6,12 +6,10 @@ require (
 	github.com/anishathalye/porcupine v1.3.0
 	github.com/enfein/mieru/v3 v3.0.0
 	golang.org/x/crypto v0.33.0
+	golang.org/x/sys v0.30.0
 	google.golang.org/protobuf v1.34.2
 )
 
-require (
-	github.com/google/btree v1.1.3 // indirect
-	golang.org/x/sys v0.30.0 // indirect
-)
+require github.com/google/btree v1.1.3 // indirect
 
 replace github.com/enfein/mieru/v3 => /repo
